@@ -6,7 +6,10 @@
 -/
 import Props.C19
 import Props.Family
-import Gen.SchemaFacts
+import Gen.Guards.Det
+import Gen.Guards.FillOk
+import Gen.Guards.LeafOk
+import Gen.Guards.TextStable
 import Gen.Parsers
 namespace PM.Family.C19
 open PM.Dom
@@ -14,7 +17,7 @@ open PM.FromDom
 open PM.FromDom PM.DomWalk
 open PM.DomWalk
 open PM.C19
-open PM.Gen PM.Family
+open PM.Gen PM.Family PM.FromDom
 
 /-- `PM.C19.placement_match_coherent` with its schema guards discharged for the bundled schema family -/
 theorem placement_match_coherent (S : Schema) (hS : S ∈ familySchemas) (wsPre : TypeId → Bool) (pw : WS)
@@ -23,7 +26,7 @@ theorem placement_match_coherent (S : Schema) (hS : S ∈ familySchemas) (wsPre 
     (hi : st.nodes[i]? = some cx) :
     cx.opts.openLeft = false ∧ ∃ t q, cx.ty = some t ∧ cx.mtch = some q ∧
     (S.dfa t).run 0 (S.types cx.content ++ ((st.nodes[i + 1]?).bind (·.ty)).toList) = some q :=
-  PM.C19.placement_match_coherent S wsPre (family_facts _ hS).Det pw topOpen events st h i cx hi
+  PM.C19.placement_match_coherent S wsPre (det_of_detB _ (family_det _ hS)) pw topOpen events st h i cx hi
 
 /-- `PM.C19.placement_content_prefix` with its schema guards discharged for the bundled schema family -/
 theorem placement_content_prefix (S : Schema) (hS : S ∈ familySchemas) (wsPre : TypeId → Bool) (pw : WS)
@@ -31,7 +34,7 @@ theorem placement_content_prefix (S : Schema) (hS : S ∈ familySchemas) (wsPre 
     (h : PState.run S wsPre (PState.init S false pw topOpen) events = .ok st) (cx : NodeCtx)
     (hcx : cx ∈ st.nodes) :
     ∃ t, cx.ty = some t ∧ ((S.dfa t).run 0 (S.types cx.content)).isSome = true :=
-  PM.C19.placement_content_prefix S wsPre (family_facts _ hS).Det pw topOpen events st h cx hcx
+  PM.C19.placement_content_prefix S wsPre (det_of_detB _ (family_det _ hS)) pw topOpen events st h cx hcx
 
 /-- `PM.C19.placement_finish_valid` with its schema guards discharged for the bundled schema family -/
 theorem placement_finish_valid (S : Schema) (hS : S ∈ domFamilySchemas) (wsPre : TypeId → Bool) (pw : WS)
@@ -40,16 +43,16 @@ theorem placement_finish_valid (S : Schema) (hS : S ∈ domFamilySchemas) (wsPre
     (hrun : PState.run S wsPre (PState.init S false pw false) events = .ok st)
     (hfin : st.finish S = .ok (some doc, rest)) :
     S.checkNode doc = true :=
-  PM.C19.placement_finish_valid S wsPre (family_facts _ (domFamily_sub _ hS)).Det
-    (FromDom.textStable_of_B _ (domFamily_textStable _ hS)) (family_facts _ (domFamily_sub _ hS)).LeafOk pw
+  PM.C19.placement_finish_valid S wsPre (det_of_detB _ (family_det _ (domFamily_sub _ hS)))
+    (textStable_of_B _ (family_textStable _ hS)) (leafOk_of_B _ (family_leafOk _ (domFamily_sub _ hS))) pw
     events hev hevm st doc rest hrun hfin
 
 /-- `PM.C19.parse_valid` with its schema guards discharged for the bundled schema family -/
 theorem parse_valid (P : Parser) (hS : P.S ∈ domFamilySchemas) (rootTag : String) (kids : List DNode)
     (hn : listOk false (givenNodeOk P.S) kids = true) (doc : Node) (h : parse P rootTag kids = .ok doc) :
     P.S.checkNode doc = true :=
-  PM.C19.parse_valid P (family_facts _ (domFamily_sub _ hS)).Det
-    (FromDom.textStable_of_B _ (domFamily_textStable _ hS)) (family_facts _ (domFamily_sub _ hS)).LeafOk rootTag
+  PM.C19.parse_valid P (det_of_detB _ (family_det _ (domFamily_sub _ hS)))
+    (textStable_of_B _ (family_textStable _ hS)) (leafOk_of_B _ (family_leafOk _ (domFamily_sub _ hS))) rootTag
     kids hn doc h
 
 /-- `PM.C19.walk_events_admissible` with its schema guards discharged for the bundled schema family -/
@@ -58,34 +61,37 @@ theorem walk_events_admissible (P : Parser) (hS : P.S ∈ familySchemas) (isOpen
     (h : addAll P rootTag kids false (walkInit P isOpen pw) = .ok w) :
     PState.run P.S P.wsPre (PState.init P.S isOpen pw false) w.log = .ok w.st ∧
     (∀ e ∈ w.log, WalkOk P.S e) ∧ (∀ e ∈ w.log, WalkMarksOk P.S e) :=
-  PM.C19.walk_events_admissible P (family_facts _ hS).LeafOk isOpen pw rootTag kids hn w h
+  PM.C19.walk_events_admissible P (leafOk_of_B _ (family_leafOk _ hS)) isOpen pw rootTag kids hn w h
 
 /-- `PM.C19.parse_no_internal` with its schema guards discharged for the bundled schema family -/
 theorem parse_no_internal (P : Parser) (hS : P.S ∈ familySchemas) (hr : P.rulesOk = true) (rootTag : String)
     (kids : List DNode) (hk : listOk true (fun _ => true) kids = true) :
     parse P rootTag kids ≠ .error .internal :=
-  PM.C19.parse_no_internal P (family_facts _ hS).SchemaOk hr rootTag kids hk
+  PM.C19.parse_no_internal P (schemaOk_of_K _ (family_det _ hS) (family_fillOk _ hS)) hr rootTag kids hk
 
 /-- `PM.C19.walk_no_internal` with its schema guards discharged for the bundled schema family -/
 theorem walk_no_internal (P : Parser) (hS : P.S ∈ familySchemas) (hr : P.rulesOk = true) (rootTag : String)
     (kids : List DNode) (hk : listOk true (fun _ => true) kids = true) (isOpen : Bool) (pw : WS) :
     addAll P rootTag kids false (walkInit P isOpen pw) ≠ .error .internal ∧
     ∀ w, addAll P rootTag kids false (walkInit P isOpen pw) = .ok w → w.st.finish P.S ≠ .error .internal :=
-  PM.C19.walk_no_internal P (family_facts _ hS).SchemaOk hr rootTag kids hk isOpen pw
+  PM.C19.walk_no_internal P (schemaOk_of_K _ (family_det _ hS) (family_fillOk _ hS)) hr rootTag kids hk isOpen
+    pw
 
 /-- `PM.C19.parse_no_internal` with its schema guards discharged for the bundled schema family -/
 theorem parse_no_internal_from_schema (P : Parser) (hS : P ∈ familyParsers) (rootTag : String)
     (kids : List DNode) (hk : listOk true (fun _ => true) kids = true) :
     parse P rootTag kids ≠ .error .internal :=
-  PM.C19.parse_no_internal P (family_facts _ (family_rulesOk P hS).2).SchemaOk (family_rulesOk P hS).1 rootTag
-    kids hk
+  PM.C19.parse_no_internal P
+    (schemaOk_of_K _ (family_det _ (family_rulesOk P hS).2) (family_fillOk _ (family_rulesOk P hS).2))
+    (family_rulesOk P hS).1 rootTag kids hk
 
 /-- `PM.C19.walk_no_internal` with its schema guards discharged for the bundled schema family -/
 theorem walk_no_internal_from_schema (P : Parser) (hS : P ∈ familyParsers) (rootTag : String)
     (kids : List DNode) (hk : listOk true (fun _ => true) kids = true) (isOpen : Bool) (pw : WS) :
     addAll P rootTag kids false (walkInit P isOpen pw) ≠ .error .internal ∧
     ∀ w, addAll P rootTag kids false (walkInit P isOpen pw) = .ok w → w.st.finish P.S ≠ .error .internal :=
-  PM.C19.walk_no_internal P (family_facts _ (family_rulesOk P hS).2).SchemaOk (family_rulesOk P hS).1 rootTag
-    kids hk isOpen pw
+  PM.C19.walk_no_internal P
+    (schemaOk_of_K _ (family_det _ (family_rulesOk P hS).2) (family_fillOk _ (family_rulesOk P hS).2))
+    (family_rulesOk P hS).1 rootTag kids hk isOpen pw
 
 end PM.Family.C19
